@@ -1,5 +1,5 @@
 (** C05 — Tokenisation follows the C11 lexical grammar.  PARTIAL: what is a theorem here is the
-    punctuator part of Lexer::yylex_CORE (23 of its cases, regenerated from the source on every
+    punctuator part of Lexer::yylex_CORE (every case of its switch that stays within kind assignments, yyinput(), tests of yychar_ / yytext_[1] / isdigit and a hand-over to a sub-lexer; regenerated from the source on every
     run as decision statements) against the table of 6.4.6 with maximal munch, for EVERY input;
     and that it never calls yyinput() at the terminating NUL. *)
 From Coq Require Import List NArith Bool Arith Lia.
@@ -9,8 +9,14 @@ Import ListNotations.
 Local Open Scope N_scope.
 
 (** the bytes that any translated test or any table row mentions *)
+Definition digits : list N := [48; 49; 50; 51; 52; 53; 54; 55; 56; 57].
 Fixpoint chars_stm (s : stm) : list N :=
-  match s with SIf c t e => c :: flat_map chars_stm t ++ flat_map chars_stm e | _ => [] end.
+  match s with
+  | SIf c t e => c :: flat_map chars_stm t ++ flat_map chars_stm e
+  | SIf2 c d t e => c :: d :: flat_map chars_stm t ++ flat_map chars_stm e
+  | SIfDigit t e => digits ++ flat_map chars_stm t ++ flat_map chars_stm e
+  | _ => []
+  end.
 Definition chars_of (ss : list stm) : list N := flat_map chars_stm ss.
 Definition alphabet : list N :=
   Eval vm_compute in nodup N.eq_dec (flat_map (fun cs => chars_of (snd cs)) punct_cases ++ flat_map fst punct_table).
@@ -24,8 +30,9 @@ Definition spec_answer (c : N) (rest : list N) : option (option N * nat * bool) 
   | None => None
   end.
 
-(** trigraph territory: "??" is translation phase 1, not 6.4.6 *)
-Definition trigraph (c : N) (rest : list N) : bool := N.eqb c 63 && N.eqb (ahead rest) 63.
+(** outside the theorem: trigraph territory ("??" is translation phase 1, not 6.4.6) and a period followed by a digit
+    (the start of a floating constant, 6.4.4.2: the case hands over to a sub-lexer) *)
+Definition trigraph (c : N) (rest : list N) : bool := (N.eqb c 63 && N.eqb (ahead rest) 63) || (N.eqb c 46 && isdigit (ahead rest)).
 
 (** all lists of length <= n over the alphabet and 0 *)
 Fixpoint lists (n : nat) : list (list N) :=
@@ -80,25 +87,54 @@ Qed.
 Fixpoint tests_stmb (s : stm) : bool :=
   match s with
   | SIf c t e => existsb (N.eqb c) alphabet && forallb tests_stmb t && forallb tests_stmb e
+  | SIf2 c d t e => existsb (N.eqb c) alphabet && existsb (N.eqb d) alphabet && forallb tests_stmb t && forallb tests_stmb e
+  | SIfDigit t e => forallb (fun d => existsb (N.eqb d) alphabet) digits && forallb tests_stmb t && forallb tests_stmb e
   | _ => true
   end.
 Definition tests_in (ss : list stm) : Prop := forallb tests_stmb ss = true.
 Lemma tests_in_app a b : tests_in a -> tests_in b -> tests_in (a ++ b).
 Proof. unfold tests_in. intros A B'. rewrite forallb_app, A, B'. reflexivity. Qed.
 
+Lemma isdigit_digits b : isdigit b = true -> In b digits.
+Proof.
+  unfold isdigit. intros H. apply andb_true_iff in H as [A B']. apply N.leb_le in A. apply N.leb_le in B'.
+  assert (b = 48 \/ b = 49 \/ b = 50 \/ b = 51 \/ b = 52 \/ b = 53 \/ b = 54 \/ b = 55 \/ b = 56 \/ b = 57) by lia.
+  cbn. intuition.
+Qed.
+Lemma isdigit_norm b : forallb (fun d => existsb (N.eqb d) alphabet) digits = true -> isdigit (norm b) = isdigit b.
+Proof.
+  intros Hd. unfold norm. destruct (existsb (N.eqb b) alphabet) eqn:E; [reflexivity|].
+  destruct (isdigit b) eqn:Eb; [|reflexivity]. apply isdigit_digits in Eb. rewrite forallb_forall in Hd. specialize (Hd b Eb).
+  apply existsb_exists in Hd as [x [Hx E2]]. apply N.eqb_eq in E2. subst x.
+  assert (existsb (N.eqb b) alphabet = true) by (apply existsb_exists; exists b; split; [exact Hx|apply N.eqb_refl]). congruence.
+Qed.
+Lemma ahead_norm_digit inp : forallb (fun d => existsb (N.eqb d) alphabet) digits = true -> isdigit (ahead (map norm inp)) = isdigit (ahead inp).
+Proof. intros Hd. destruct inp as [|b inp]; [reflexivity|]. cbn [map ahead]. apply isdigit_norm. exact Hd. Qed.
+Lemma tl_map_norm inp : tl (map norm inp) = map norm (tl inp).
+Proof. destruct inp; reflexivity. Qed.
+
 Lemma exec_norm f : forall ss k inp n oob, tests_in ss -> exec f ss k (map norm inp) n oob = exec f ss k inp n oob.
 Proof.
   induction f as [|f IH]; intros ss k inp n oob Ht; [reflexivity|]. cbn [exec].
-  destruct ss as [|[k0| |c t e] r]; [reflexivity| | |].
+  destruct ss as [|[k0| |c t e|c d t e|t e|] r]; [reflexivity| | | | | |].
   - apply IH. exact Ht.
   - destruct inp as [|b inp]; cbn [map]; [reflexivity|apply IH; exact Ht].
   - unfold tests_in in Ht. cbn [forallb tests_stmb] in Ht. rewrite !andb_true_iff in Ht. destruct Ht as (((Hc & Htt) & Hte) & Htr).
     apply existsb_exists in Hc as [x [Hx E]]. apply N.eqb_eq in E. subst x.
     rewrite (ahead_norm inp c Hx).
     apply IH. destruct (N.eqb (ahead inp) c); apply tests_in_app; assumption.
+  - unfold tests_in in Ht. cbn [forallb tests_stmb] in Ht. rewrite !andb_true_iff in Ht. destruct Ht as ((((Hc & Hd) & Htt) & Hte) & Htr).
+    apply existsb_exists in Hc as [x [Hx E]]. apply N.eqb_eq in E. subst x.
+    apply existsb_exists in Hd as [y [Hy E]]. apply N.eqb_eq in E. subst y.
+    rewrite (ahead_norm inp c Hx), tl_map_norm, (ahead_norm (tl inp) d Hy).
+    apply IH. destruct (N.eqb (ahead inp) c && N.eqb (ahead (tl inp)) d); apply tests_in_app; assumption.
+  - unfold tests_in in Ht. cbn [forallb tests_stmb] in Ht. rewrite !andb_true_iff in Ht. destruct Ht as (((Hd & Htt) & Hte) & Htr).
+    rewrite (ahead_norm_digit inp Hd).
+    apply IH. destruct (isdigit (ahead inp)); apply tests_in_app; assumption.
+  - reflexivity.
 Qed.
 
-(** the largest number of yyinput() calls on any path *)
+(** how far any path looks into the input: yyinput() calls so far plus the reach of the test (1 for yychar_, 2 for yytext_[1]) *)
 Fixpoint madv (f : nat) (ss : list stm) : nat :=
   match f with
   | O => 0%nat
@@ -106,18 +142,27 @@ Fixpoint madv (f : nat) (ss : list stm) : nat :=
             | [] => 0%nat
             | SKind _ :: r => madv f' r
             | SAdv :: r => S (madv f' r)
-            | SIf _ t e :: r => Nat.max (madv f' (t ++ r)) (madv f' (e ++ r))
+            | SIf _ t e :: r | SIfDigit t e :: r => Nat.max 1 (Nat.max (madv f' (t ++ r)) (madv f' (e ++ r)))
+            | SIf2 _ _ t e :: r => Nat.max 2 (Nat.max (madv f' (t ++ r)) (madv f' (e ++ r)))
+            | SOut :: _ => 0%nat
             end
   end.
 
-Lemma exec_firstn f : forall ss k inp n oob d, (madv f ss < d)%nat -> exec f ss k (firstn d inp) n oob = exec f ss k inp n oob.
+Lemma exec_firstn f : forall ss k inp n oob d, (madv f ss <= d)%nat -> exec f ss k (firstn d inp) n oob = exec f ss k inp n oob.
 Proof.
   induction f as [|f IH]; intros ss k inp n oob d Hd; [reflexivity|]. cbn [exec]. cbn [madv] in Hd.
-  destruct ss as [|[k0| |c t e] r]; [reflexivity| | |].
+  destruct ss as [|[k0| |c t e|c c2 t e|t e|] r]; [reflexivity| | | | | |].
   - apply IH. exact Hd.
   - destruct d as [|d]; [lia|]. destruct inp as [|b inp]; cbn [firstn]; [apply (IH r k [] n true (S d)); lia|]. apply IH. lia.
   - assert (Ha : ahead (firstn d inp) = ahead inp) by (destruct d; [lia|]; destruct inp; reflexivity).
     rewrite Ha. apply IH. destruct (N.eqb (ahead inp) c); lia.
+  - assert (Ha : ahead (firstn d inp) = ahead inp) by (destruct d; [lia|]; destruct inp; reflexivity).
+    assert (Hb : ahead (tl (firstn d inp)) = ahead (tl inp)).
+    { destruct d as [|[|d]]; [lia|lia|]. destruct inp as [|b [|b2 inp]]; reflexivity. }
+    rewrite Ha, Hb. apply IH. destruct (N.eqb (ahead inp) c && N.eqb (ahead (tl inp)) c2); lia.
+  - assert (Ha : ahead (firstn d inp) = ahead inp) by (destruct d; [lia|]; destruct inp; reflexivity).
+    rewrite Ha. apply IH. destruct (isdigit (ahead inp)); lia.
+  - reflexivity.
 Qed.
 
 Lemma prefix_eqb_norm row : Forall (fun r => In r alphabet) row -> forall inp, prefix_eqb row (map norm inp) = prefix_eqb row inp.
@@ -139,7 +184,7 @@ Qed.
 
 Lemma table_rows_ok : forallb (fun row => Nat.leb (List.length (fst row)) 4 && forallb (fun r => existsb (N.eqb r) alphabet) (fst row)) punct_table = true.
 Proof. vm_compute. reflexivity. Qed.
-Lemma progs_ok : forallb (fun cs => Nat.ltb (madv (size (snd cs)) (snd cs)) 3) punct_cases = true.
+Lemma progs_ok : forallb (fun cs => Nat.leb (madv (size (snd cs)) (snd cs)) 3) punct_cases = true.
 Proof. vm_compute. reflexivity. Qed.
 
 Lemma progs_tests : forallb (fun cs => forallb tests_stmb (snd cs)) punct_cases = true.
@@ -152,7 +197,7 @@ Proof.
   intros Hc. unfold impl_answer, lex_punct. destruct (find_case c punct_cases) as [ss|] eqn:E; [|reflexivity]. f_equal.
   assert (Hss : In (c, ss) punct_cases).
   { clear -E. induction punct_cases as [|[c' s'] l IH]; cbn in E; [discriminate|]. destruct (N.eqb c c') eqn:E2; [apply N.eqb_eq in E2; inversion E; subst; left; reflexivity|right; auto]. }
-  pose proof progs_ok as P1. rewrite forallb_forall in P1. specialize (P1 _ Hss). cbn [snd] in P1. apply Nat.ltb_lt in P1.
+  pose proof progs_ok as P1. rewrite forallb_forall in P1. specialize (P1 _ Hss). cbn [snd] in P1. apply Nat.leb_le in P1.
   pose proof progs_tests as P2. rewrite forallb_forall in P2. specialize (P2 _ Hss). cbn [snd] in P2.
   rewrite exec_norm by exact P2. apply exec_firstn. exact P1.
 Qed.
@@ -173,10 +218,13 @@ Qed.
 
 Lemma q_in_alphabet : existsb (N.eqb 63) alphabet = true.
 Proof. vm_compute. reflexivity. Qed.
+Lemma digits_in_alphabet : forallb (fun d => existsb (N.eqb d) alphabet) digits = true.
+Proof. vm_compute. reflexivity. Qed.
 Lemma tri_reduce c rest : trigraph c (map norm (firstn 3 rest)) = trigraph c rest.
 Proof.
-  unfold trigraph. f_equal. destruct rest as [|b rest']; [reflexivity|]. cbn [firstn map ahead].
-  apply norm_eqb. pose proof q_in_alphabet as Q. apply existsb_exists in Q as [x [Hx E]]. apply N.eqb_eq in E. subst. exact Hx.
+  unfold trigraph. destruct rest as [|b rest']; [reflexivity|]. cbn [firstn map ahead]. f_equal; f_equal.
+  - apply norm_eqb. pose proof q_in_alphabet as Q. apply existsb_exists in Q as [x [Hx E]]. apply N.eqb_eq in E. subst. exact Hx.
+  - apply isdigit_norm. exact digits_in_alphabet.
 Qed.
 
 Lemma sweep_inst c l : In c firsts -> In l (lists 3) -> agree c l = true.
